@@ -644,10 +644,10 @@ Proof. intros. split; [apply app_eq_nil | intros [-> ->]; reflexivity]. Qed.
 Lemma tag_if_nil : forall b t, tag_if b t = [] <-> b = false.
 Proof. intros [|] t; cbn; split; intro; try reflexivity; discriminate. Qed.
 
-Theorem entry_validator_decides : forall b pre tree fm al th d,
-  check_entry b pre tree fm al th d = [] <-> EntryTrue tree d.
+Theorem entry_validator_decides : forall b pre tree fm al th dp d,
+  check_entry b pre tree fm al th dp d = [] <-> EntryTrue tree d.
 Proof.
-  intros b pre tree fm al th d. unfold check_entry, EntryTrue.
+  intros b pre tree fm al th dp d. unfold check_entry, EntryTrue.
   destruct (tree_lookup tree (d_path d)) as [n|];
     [|split; [destruct (th (d_path d)); discriminate | intros (n & H & _); discriminate]].
   match goal with |- (if ?c then _ else _) = [] <-> _ => destruct c eqn:DirLink end.
